@@ -48,9 +48,15 @@ def share_encoder_parameters(
     :param others: The other networks whose encoder parameters will be pinned to the policy.
     :type others: EvolvableNetwork
     """
-    assert isinstance(policy, EvolvableNetwork), "Policy must be an EvolvableNetwork"
+    # NOTE: Since Python 3.12, `isinstance` checks against runtime-checkable protocols
+    # resolve members statically, which doesn't find the `encoder` / `head_net` submodules
+    # that `torch.nn.Module` keeps in `_modules`, so we also accept the concrete base class.
+    from agilerl.networks.base import EvolvableNetwork as _EvolvableNetwork
+
+    network_types = (EvolvableNetwork, _EvolvableNetwork)
+    assert isinstance(policy, network_types), "Policy must be an EvolvableNetwork"
     assert all(
-        isinstance(other, EvolvableNetwork) for other in others
+        isinstance(other, network_types) for other in others
     ), "All others must be EvolvableNetwork"
 
     # detaching encoder parameters from computation graph reduces
